@@ -875,6 +875,24 @@ def families(ctx, quick):
             add("nlsemi-" + name, g, "nlsemi", "bs")
         if name in ("void-group-only", "undefined-in-opt"):
             add("recompile-" + name, g, "plain", "2")
+    # one parsed grammar, every rule compiled in turn (route m): a good public rule next to rules the compiler
+    # refuses or that nobody uses; what a refused compilation leaves in the jsgf_t must not reach the next one
+    A = lambda *alts: [[1, list(s)] for s in alts]
+    t, r = (lambda w: ["t", w]), (lambda n: ["r", n])
+    goods = [A([t("a")]), A([t("a"), t("b")], [t("c")]), A([t("a"), ["k", t("b")], t("c")]), A([t("c"), ["o", A([t("a")], [t("b")])]]),
+             A([t("a"), r("r2")], [t("b")])]
+    bads = [A([r("t"), t("b")], [t("a")]), A([t("b"), r("t"), t("c")], [t("a")]), A([t("c"), t("b"), r("u")]),
+            A([t("b"), t("c"), ["g", A([t("a"), r("t"), t("b")])], t("a")], [t("c")]), A([t("b"), t("c"), t("a"), t("b"), ["v"]]),
+            A([t("a"), t("b"), t("c"), t("a"), ["k", ["g", A([t("b"), r("t")])]], t("c")]), A([t("b"), t("a")])]
+    for gi, good in enumerate(goods):
+        for bi, bad in enumerate(bads):
+            rs = [("s", 1, good), ("t", 0, bad)] + ([("r2", 0, A([t("c")], [t("b"), t("a")]))] if gi == 4 else [])
+            for order in (rs, rs[::-1]):
+                add("multi-g%d-b%d" % (gi, bi), grammar(order), "plain", "bm")
+    for name, g in zoo_:
+        add("multi-zoo-" + name, g, "plain", "m")
+    for g in rng.sample(two, 150 if quick else 1500) + rnd[:100 if quick else 2000]:
+        add("multi", g, "plain", "m")
     dguises = ["plain", "comments", "tags", "grouped", "weights", "dense"]
     dec = [g for n, g in zoo_ if not issues(g) & {"nopublic"}] + \
           [g for g in rnd if '"q"' not in json.dumps(g)][:15 if quick else 150]
